@@ -1225,7 +1225,7 @@ func (f *Frame) checkFrame(st *State, entry *State, ct *Contract, ri int, where 
 		if !ok {
 			old = c.heapInit(h)
 		}
-		if same(cur, old) || h == "ALLOC" || strings.HasPrefix(h, "IT!") || strings.HasPrefix(h, "HS!") || strings.HasPrefix(h, "TX!") || h == "G!lastNow" || h == "G!lastRPCErr" || h == "G!rpcFails" || strings.HasPrefix(h, "OUT!") || h == "G!called" || h == "G!lasterr" || h == "G!laststr" || strings.HasPrefix(h, "TAR!") || strings.HasPrefix(h, "SC!") {
+		if same(cur, old) || h == "ALLOC" || strings.HasPrefix(h, "IT!") || strings.HasPrefix(h, "HS!") || strings.HasPrefix(h, "TX!") || h == "G!lastNow" || h == "G!lastRPCErr" || h == "G!rpcFails" || strings.HasPrefix(h, "OUT!") || h == "G!called" || h == "G!lasterr" || h == "G!laststr" || h == "G!clock" || h == "G!first" || h == "G!last" || strings.HasPrefix(h, "MW!") || strings.HasPrefix(h, "TEE!") || strings.HasPrefix(h, "TAR!") || strings.HasPrefix(h, "SC!") {
 			continue
 		}
 		whole := false
